@@ -287,6 +287,23 @@ pub mod verif_hooks {
         pub programsize: Programsize,
     }
 
+    /// The real, private leaf encoder of the two-operand class (CMP, BITT, BITS, BITC).
+    pub fn encode_two_operand(
+        b2: u8,
+        dst: &crate::parser::Destination,
+        src: &crate::parser::Source,
+    ) -> Vec<ByteOrLabel> {
+        super::from_bases_dst_and_src(0b1111_0000, b2, dst, src)
+    }
+
+    /// The real, private leaf encoder of MOV (also used for LD and ST).
+    pub fn encode_mov(
+        dst: &crate::parser::Destination,
+        src: &crate::parser::Source,
+    ) -> Vec<ByteOrLabel> {
+        super::compile_instruction_mov(dst.clone(), src.clone())
+    }
+
     /// Run the real, private `Translator::push_instruction` on a fresh
     /// translator whose address counter has been set to `next_addr`.
     pub fn step(next_addr: u8, inst: &Instruction) -> Step {
